@@ -292,7 +292,8 @@ Proof.
     - rewrite F2k. exact ABS. }
   eapply okr_bind; [apply (fd_register_ok s2 key I2 P2)|].
   intros s3 (I3 & S3 & R3 & SY3 & A3 & H3 & NF3 & NO3). cbn [okr].
-  pose proof (fs_rest _ _ _ S3) as RS3. pose proof (fs_kctl _ _ _ S3) as K3.
+  assert (RS3 : restsame s s3) by (eapply restsame_trans; [|apply (fs_rest _ _ _ S3)]; constructor; reflexivity).
+  pose proof (fs_kctl _ _ _ S3) as K3.
   change (kern s2) with (kern s) in K3.
   set (s4 := set_rw s3 (upd (rw_reg s3) j true) (upd (rw_rfd s3) j rfd) (upd (rw_wfd s3) j wfd)).
   assert (HS : forall k0, k0 <> key -> hsame (fdt s3 k0) (fdt s k0)).
@@ -320,7 +321,7 @@ Proof.
       * intros _. destruct HK as (A&B&C&D&_). fold key. rewrite A, B, C, D. subst f. repeat split.
       * intros J0. destruct (HS (16 + j0)) as (A&B&C&D&_); [subst key; lia|]. rewrite A, B, C, D. auto.
     + intros j0. unfold upd. destruct (Z.eqb_spec j0 j) as [->|N].
-      * intros _. change (kern s2) with (kern s) in *. destruct (efd_raw s =? 0);
+      * intros _. destruct (efd_raw s =? 0);
           [eapply pipe_ok_kctl|eapply evfd_ok_kctl]; eassumption.
       * intros J0. specialize (dy_kern j0 J0). destruct (efd_raw s =? 0);
           [eapply pipe_ok_kctl|eapply evfd_ok_kctl]; eassumption.
